@@ -297,25 +297,18 @@ func contextOf(info *types.Info, pm map[ast.Node]ast.Node, n ast.Node, stop ast.
 	return labels, guards
 }
 
-func runC04(c *Ctx) {
+// c04Narrowing enumerates every operation that can make CanHaveLabel false and
+// requires its context to be one in which PromQL drops the label(s). Shared by
+// C04-R3 and C12-R9 (a wrongly excluded label makes canJoin declare a side dead).
+func c04Narrowing(c *Ctx, rule string, skipMetricName bool) {
 	p := c.P
-	c.Rule("C04-R1", "walkNode covers every parser.Expr implementer", 11)
-	c.Rule("C04-R2", "function and aggregator tables agree with the vendored parser", 84)
-	c.Rule("C04-R3", "label narrowing only in label-dropping contexts", 30)
-	c.Rule("C04-R4", "consumer guards of the non-existent label report", 4)
-	c.Rule("C04-R5", "label lists are owned; stamped labels re-admitted; only l=\"\" excludes", 25)
-	c04Exhaustive(c, "C04")
-	c04Ownership(c, "C04-R5")
-	c04Stamped(c, "C04-R5")
-	c04EmptyMatcher(c, "C04-R5")
-
 	// ---- R3 ----
 	labelDroppingFuncs := map[string]bool{"absent": true, "absent_over_time": true, "pi": true, "scalar": true, "time": true, "vector": true}
 	dateFuncs := map[string]bool{"days_in_month": true, "day_of_month": true, "day_of_week": true, "day_of_year": true, "hour": true, "minute": true, "month": true, "year": true}
 	nameDroppingAggs := map[string]bool{"SUM": true, "MIN": true, "MAX": true, "AVG": true, "GROUP": true, "STDDEV": true, "STDVAR": true, "COUNT": true, "COUNT_VALUES": true, "QUANTILE": true}
 	nSites := 0
 	for _, fname := range []string{"walkNode", "walkAggregation", "parseAggregation", "parsePromQLFunc", "parseCall", "parseBinOps"} {
-		fi := c.MustFunc("C04-R3", "internal/parser/utils."+fname)
+		fi := c.MustFunc(rule, "internal/parser/utils."+fname)
 		if fi == nil {
 			continue
 		}
@@ -357,7 +350,9 @@ func runC04(c *Ctx) {
 							// name for without(...) and for no grouping, but keeps it
 							// when it is listed in by(...): the exclusion has to consult
 							// the grouping.
-							if strings.Contains(g, ".Grouping") {
+							if skipMetricName {
+								ok, why = true, "metric name exclusion is decided under C04-R3"
+							} else if strings.Contains(g, ".Grouping") {
 								ok, why = true, "aggregation drops the metric name unless by(__name__) keeps it"
 							} else {
 								badWhy = "the metric name is excluded for every " + strings.ToLower(lab) + "(...) without consulting the grouping, but Prometheus keeps __name__ when it is listed in by(...): `" + strings.ToLower(lab) + " by(__name__)(m)` with a template using $labels.__name__ gets a false `non-existent label` report"
@@ -392,16 +387,16 @@ func runC04(c *Ctx) {
 					key += " if " + g
 				}
 				if badWhy != "" {
-					c.Bad("C04-R3", key, n.Pos(), badWhy)
+					c.Bad(rule, key, n.Pos(), badWhy)
 					continue
 				}
-				c.Check(ok, "C04-R3", key, n.Pos(), why,
+				c.Check(ok, rule, key, n.Pos(), why,
 					"the label set is narrowed ("+kind+") in a context where PromQL keeps the labels ("+fname+", case "+strq(lab)+", guard "+strq(g)+"): CanHaveLabel can become false for a label the results do carry, i.e. a false `non-existent label` report")
 			}
 			return true
 		})
 	}
-	c.Check(nSites >= 30, "C04-R3", "narrowing sites enumerated", token.NoPos, itoa(nSites), "implausibly few narrowing sites ("+itoa(nSites)+")")
+	c.Check(nSites >= 30, rule, "narrowing sites enumerated", token.NoPos, itoa(nSites), "implausibly few narrowing sites ("+itoa(nSites)+")")
 	// helpers that narrow have no other callers
 	for _, h := range []string{"excludeLabel", "restrictIncludedLabels", "restrictGuaranteedLabels"} {
 		if fi := p.Func("internal/parser/utils." + h); fi != nil {
@@ -427,12 +422,12 @@ func runC04(c *Ctx) {
 								return true
 							})
 							if consults {
-								c.Ok("C04-R3", h+" called from "+cs.Caller.Name, cs.Call.Pos(), "metric name dropped unless by(__name__) keeps it")
+								c.Ok(rule, h+" called from "+cs.Caller.Name, cs.Call.Pos(), "metric name dropped unless by(__name__) keeps it")
 								continue
 							}
 						}
 					}
-					c.Bad("C04-R3", h+" called from "+cs.Caller.Name, cs.Call.Pos(), "label narrowing outside the analysed transfer functions")
+					c.Bad(rule, h+" called from "+cs.Caller.Name, cs.Call.Pos(), "label narrowing outside the analysed transfer functions")
 				}
 			}
 		}
@@ -449,12 +444,12 @@ func runC04(c *Ctx) {
 			}
 			ast.Inspect(fi.Decl.Body, func(n ast.Node) bool {
 				if k := narrowingKind(up.TypesInfo, n); k != "" && k != "excludeLabel" {
-					c.Bad("C04-R3", "narrowing store in "+fi.Name, n.Pos(), "Source."+k+" outside the transfer functions")
+					c.Bad(rule, "narrowing store in "+fi.Name, n.Pos(), "Source."+k+" outside the transfer functions")
 				}
 				if as, ok := n.(*ast.AssignStmt); ok {
 					for _, l := range as.Lhs {
 						if sel, ok := l.(*ast.SelectorExpr); ok && sel.Sel.Name == "ExcludedLabels" && fieldOwner(up.TypesInfo, sel) == "internal/parser/utils.Source" {
-							c.Bad("C04-R3", "ExcludedLabels store in "+fi.Name, n.Pos(), "Source.ExcludedLabels is written outside excludeLabel/includeLabel/guaranteeLabel")
+							c.Bad(rule, "ExcludedLabels store in "+fi.Name, n.Pos(), "Source.ExcludedLabels is written outside excludeLabel/includeLabel/guaranteeLabel")
 						}
 					}
 				}
@@ -462,6 +457,23 @@ func runC04(c *Ctx) {
 			})
 		}
 	}
+
+}
+
+func runC04(c *Ctx) {
+	p := c.P
+	c.Rule("C04-R1", "walkNode covers every parser.Expr implementer", 11)
+	c.Rule("C04-R2", "function and aggregator tables agree with the vendored parser", 84)
+	c.Rule("C04-R3", "label narrowing only in label-dropping contexts", 30)
+	c.Rule("C04-R4", "consumer guards of the non-existent label report", 4)
+	c.Rule("C04-R5", "label lists are owned; stamped labels re-admitted; only l=\"\" excludes", 25)
+	c04Exhaustive(c, "C04")
+	c04Ownership(c, "C04-R5")
+	c04Stamped(c, "C04-R5")
+	c04EmptyMatcher(c, "C04-R5")
+	c04LostUpdates(c, "C04-R5")
+
+	c04Narrowing(c, "C04-R3", false)
 
 	// ---- R4 ----
 	if cq := c.MustFunc("C04-R4", "internal/checks.TemplateCheck.checkQueryLabels"); cq != nil {
@@ -511,12 +523,19 @@ func runC12(c *Ctx) {
 	c.Rule("C12-R4", "static comparison table: dead iff the negated comparison holds", 13)
 	c.Rule("C12-R5", "promql/impossible reports only dead sources", 2)
 	c.Rule("C12-R6", "label lists are owned (analysis does not rewrite the parsed query)", 20)
-	c.Rule("C12-R7", "canJoin compares the adjusted source with the inspected element", 9)
+	c.Rule("C12-R7", "canJoin compares each side as its sub-expression produced it; ignoring() labels not demanded", 9)
 	c04Exhaustive(c, "C12")
 	c04Ownership(c, "C12-R6")
+	c04LostUpdates(c, "C12-R6")
 	c12JoinOperands(c, "C12-R7")
 	c.Rule("C12-R8", "AlwaysReturns does not survive filtering set operators", 1)
 	c12AlwaysReturns(c, "C12-R8")
+	c.Rule("C12-R9", "labels are excluded only where PromQL drops them; helpers get the query's whole label lists", 70)
+	c04Narrowing(c, "C12-R9", true)
+	c12WholeLists(c, "C12-R9")
+	c.Rule("C12-R10", "arithmetic folding table; known value and always-returns survive only pass-through nodes", 20)
+	c12Arithmetic(c, "C12-R10")
+	c12KnownValue(c, "C12-R10")
 
 	// ---- R3 ----
 	up := p.Pkg("internal/parser/utils")
